@@ -232,13 +232,8 @@ async fn one_case(report: &Report, seed: u64, idx: u64) {
     if findings.is_empty() {
         let reader = Actor::new(out.world.new_actor(0));
         if let Ok(ds) = reader.open(&out.uri).await {
-            let kinds: Vec<&str> = {
-                let mut k: Vec<&str> = out.results.iter().filter(|r| r.result.is_ok()).map(|r| r.op.kind()).collect();
-                k.sort();
-                k.dedup();
-                k
-            };
-            match check_index_coverage(&ds, &kinds.join("+"), false).await {
+            let cause = history_cause(&out);
+            match check_index_coverage(&ds, &cause, false).await {
                 Ok((f, st)) => {
                     report.count("index_queries_compared", st.queries);
                     report.count("index_queries_using_index", st.queries_using_index);
